@@ -312,6 +312,8 @@ def const_eval(n, env):
         return 0
     if 'v' in n.d and n.k != 'DeclRefExpr':
         return n['v']
+    if n.k == 'CallExpr':
+        return env.get(('call', n.id))      # the outcome of a call under study, pinned by the rule
     if n.k == 'DeclRefExpr':
         if n['ref'].get('kind') == 'enum' and 'v' in n.d:
             return n['v']
@@ -340,10 +342,10 @@ def const_eval(n, env):
     return None
 
 
-def explore_paths(func, start, env, want, edge_ok=None, limit=4000, force=None, after_edge=None):
+def explore_paths(func, start, env, want, edge_ok=None, limit=4000, force=None, after_edge=None, stop=None):
     """enumerate the paths from CFG position `start` to the function's exits under a constant environment that
     is updated along each path (x = constant sets it, any other write to x forgets it) and prunes the branches
-    it decides.  Returns a list of paths, each the list of elements e with want(e) in execution order.
+    it decides.  stop(e): the path ends at element e (reported with e as its last event).  Returns a list of paths, each the list of elements e with want(e) in execution order.
     edge_ok(block, successor index) -> False drops paths through that edge; force {element id: (var, value)}
     pins a variable right after that element (the outcome of a call under study).  after_edge (block id, successor
     index): only paths that cross that edge are returned, and only the events behind the crossing."""
@@ -397,12 +399,15 @@ def explore_paths(func, start, env, want, edge_ok=None, limit=4000, force=None, 
         if count[0] > limit:
             overflow[0] = True
             return
-        key = (b, i, tuple(sorted(env.items())))
+        key = (b, i, tuple(sorted(env.items(), key=str)))
         if key in seen:
             return
         seen = seen | {key}
         blk = func.blocks[b]
-        for e in blk.elems[i:]:
+        for n_, e in enumerate(blk.elems[i:]):
+            if stop is not None and stop(e):
+                out.append(events + [e])
+                return
             if crossed and want(e):
                 events = events + [e]
             env = upd(env, e)
@@ -446,3 +451,73 @@ def with_helpers(prog, f, depth=3):
                 out.append(t)
                 todo.append((t, d + 1))
     return out
+
+
+def release_rule(ctx, reach, rule, consequence):
+    """A10 over the given reachable functions: no block is released twice, returned or used after free()"""
+    from engine import uaf
+    from engine.facts import AnalysisBroken
+    chk = ctx.chk
+    nsites = 0
+    for key, (f, _, _) in sorted(reach.items(), key=lambda kv: str(kv[0])):
+        fs, n = uaf.analyse(f)
+        nsites += n
+        if n:
+            chk.ob(rule, 'released-blocks-left-alone[%s]' % f.name, not fs, (fs[0].node if fs else f.body).where(), f.name,
+                   '%s is %s by %s after free() at %s: %s' % (
+                       fs[0].name if fs else '', fs[0].kind if fs else '', render(fs[0].node)[:50] if fs else '',
+                       fs[0].freed_at.where() if fs else '', consequence),
+                   how='%d release site(s); no read of a released pointer before it is assigned again' % n)
+    chk.count('release_sites', nsites)
+    if nsites < 10:
+        raise AnalysisBroken('only %d free() sites found in the reachable code (expected about 45)' % nsites)
+
+
+RETRYABLE_IO = {'read', 'recv', 'recvfrom', 'pread', 'write', 'send', 'pwrite', 'readlink'}
+
+
+def failed_io_ends_loop_rule(ctx, reach, rule):
+    """a read()/write()-class call inside a loop: when it FAILS (-1) the loop must not come back to the same call,
+    except through a test of errno for an interruption (EINTR/EAGAIN retry).  A failure that persists (EISDIR, EIO,
+    EBADF) would otherwise be retried for ever and the exec never happens."""
+    from engine import cfg as Cg
+    chk = ctx.chk
+    n = 0
+    for key, (f, _, _) in sorted(reach.items(), key=lambda kv: str(kv[0])):
+        if f.cfg_error:
+            continue
+        for c in f.calls():
+            if c.get('callee') not in RETRYABLE_IO or not Cg.in_loop(f, c):
+                continue
+            hv = holder(f, c)
+            pos = Cg.elem_positions(f)
+            el = Cg.cfg_elem_of(f, c)
+            if el is None or el.id not in pos:
+                continue
+            n += 1
+            b0, i0 = pos[el.id]
+            # the element that assigns the result
+            blk = f.blocks[b0]
+            j = i0
+            for k in range(i0, len(blk.elems)):
+                if any(x is c for x in blk.elems[k].walk()):
+                    j = k
+
+            def errno_retry_edge(bb, k):
+                # edges taken when errno == EINTR / EAGAIN are the accepted retries
+                cnd = strip(bb.cond) if bb.cond is not None else None
+                if cnd is None:
+                    return True
+                if any(x.k == 'CallExpr' and x.get('callee') == '__errno_location' for x in cnd.walk()):
+                    return False
+                return True
+            paths = explore_paths(f, (b0, j + 1), ({hv: -1} if hv is not None else {('call', c.id): -1}), lambda e: False, edge_ok=errno_retry_edge,
+                                  stop=lambda e: e.id == c.id)
+            again = [p for p in (paths or []) if p and p[-1].id == c.id]
+            chk.ob(rule, 'failed-io-ends-loop[%s:%s]' % (f.name, c['callee']), not again, c.where(), f.name,
+                   'when %s fails (-1) the loop comes back to the same call without the failure having been looked at: a '
+                   'failure that persists (EISDIR, EIO, EBADF, ...) is retried for ever and the calling process never '
+                   'reaches its exec' % render(c)[:50],
+                   how='with the result forced to -1 no path leads back to the call (errno-tested retries aside)')
+    chk.count('io_calls_in_loops', n)
+    return n
